@@ -58,10 +58,21 @@ def to_mpf(fr):
     return mpf(fr.numerator) / mpf(fr.denominator)
 
 
+def ulp_at(s, t):
+    """ulp of format s at the real number t (mpf): 2^(max(floor(log2|t|), emin) - (p-1))"""
+    if t == 0:
+        e = s.emin
+    else:
+        e = max(int(mpmath.floor(mpmath.log(abs(t), 2))), s.emin)
+    return mpf(2) ** (e - (s.P - 1))
+
+
 def ulp_err(v, true_mpf):
-    """|v - true| in ulps of v (mpf)"""
+    """|v - true| in ulps (mpf). At a binade boundary the result and the true value have
+    different ulps; the larger one is used, so that the oracle never demands more than the
+    property states."""
     r = to_mpf(val_of(v))
-    u = to_mpf(ulp_of(v))
+    u = max(to_mpf(ulp_of(v)), ulp_at(v["sem"], true_mpf))
     return abs(r - true_mpf) / u
 
 
